@@ -5,7 +5,7 @@ from sa.sym import (SELF, is_const, cval, pretty, walk, contains, root_field, is
 from sa.model import AnalysisError, EnumVal, NOCONST
 from sa import guards as G
 from sa.bits import BV, BitEval, T
-from .common import (mname, is_self_call, lensym, sub, field, affine, affine_eq, affine_diff, min_leaves, Sinks,
+from .common import (ret_is_none, mname, is_self_call, lensym, sub, field, affine, affine_eq, affine_diff, min_leaves, Sinks,
                      bind_args, runs, lits, has_lit, loc, LEN)
 from .arith import ceil_div_check, Unk
 
@@ -342,7 +342,7 @@ def refuse(ctx, L, rule="R-REFUSE"):
             g = L.builder(gname)
             for r in runs(ctx, g):
                 rets = [e for _, e in r.effects() if e.kind == "ret"]
-                if rets and rets[-1].value == ("c", None):
+                if rets and ret_is_none(r, rets[-1].value):
                     st = [e for _, e in r.effects() if e.kind in ("store", "aug", "del")]
                     if st:
                         ctx.violated(rule, g, "22 %s None path" % gname, "pool getter modifies state although it returns None", st[0].node)
